@@ -555,7 +555,7 @@ def a64_tree_stream(tie, p, cases, per=200):
     res = ctx.coq_eval_many(shards, timeout=900)
     names = ["tree is in the language wline_okb fx_all", "grammar stage: gr_stage tree = REAL pyparsing result (every element parse_line tries, "
              "list_element on list members; dictionaries as finite maps)", "theorem instance: translated parse_line (gr_stage tree) = emb_form (denote tree)",
-             "hypothesis members_okb of C10post_line / C10post_instr_line holds (list members spelled alike are the same register)"]
+             "members_okb tree (list members spelled alike are the same register; also a theorem: Proofs/PostMembers.v members_ok)"]
     fails = {n: [] for n in names}
     broken = []
     for k, (ok, out) in enumerate(res):
@@ -818,9 +818,9 @@ def run_a64(ctx, p, cases, extra_lines=()):
     ctx.trusted += ["tools/gen_parsepost.py + tools/py2coq_dyn.py (translator; cross-checked: the translated parse_line run on the real pyparsing "
                     "dictionaries returns every field of what the Python parse_line returns, every run) and coq/Model/PyDyn.v + PyPost.v (semantics of the "
                     "Python subset); coq/Model/PostA64.v gr_* (grammar result of a written tree; compared with real pyparsing output on every generated line)"]
-    ctx.assumptions += ["C10post_line: the decidable hypothesis members_okb (the grammar element list_element is a function of the member's text) is "
-                        "evaluated on every generated tree; directive parameters / further keys / comment words as the grammar delivered them (free); "
-                        "C10post_list / C10post_operand: for every oracle that answers list_element on the members as gr_wreg (gr_stage does: stage a)"]
+    ctx.assumptions += ["C10post_line: for every line of wline_okb fx_all, with the validated grammar stage gr_stage as the oracle; directive parameters / "
+                        "further keys / comment words as the grammar delivered them (free); C10post_list / C10post_operand: for every oracle that answers "
+                        "list_element on the members as gr_wreg (gr_stage does: Proofs/PostMembers.v members_ok, and stage a on every generated tree)"]
     tie = Tie(ctx, "a64").run_T()
     n_tr = ctx.n(500, 6000)
     lines = list(extra_lines) + [c["line"] for c in cases[:n_tr]]
